@@ -20,10 +20,17 @@
    a type outside the model);  erase x = the denoted value;  cveq / ckey = Equals / ToKey on the object graph,
    method by method;  refill f g x = the same object with any other content of the caches;  fresh v = the newly
    built object (all caches nil).  The nil optional parts of types do not exist in the model: for them the clause
-   is checked on the implementation only (harness clauses hidden-state, own-entries). *)
+   is checked on the implementation only (harness clauses hidden-state, own-entries).
+   The cached canonical form of a TypedName (the lower case text authority/namespace/name that MapKey returns and
+   Equals compares; computed by the constructor, cut out of another name's form by Child / Parent / RelativeTo) is
+   explicit state in Model/KeysNames.v:  tname = (namespace, authority, name, canonical);  nexpr = the construction
+   routes (new, from a map key, Child, Parent, RelativeTo, nested to any depth);  nx_eval e = the result (a name,
+   nil, not relative, a reported error, or a runtime fault of a slice expression);  tn_equals = Equals;
+   visible_eqb = equality of the canonical forms that the visible parts determine;  tn_ok = the field is empty or
+   is that form. *)
 From Coq Require Import ZArith NArith Bool List.
-From PcoreV Require Import Model.Base Model.Keys Model.KeysIndex Model.KeysCache Proofs.KeysOrder Proofs.KeysCode Proofs.KeysTypes
-  Proofs.KeysProofs Proofs.KeysIndexProofs Proofs.KeysCacheProofs.
+From PcoreV Require Import Model.Base Model.Keys Model.KeysIndex Model.KeysCache Model.KeysNames Proofs.KeysOrder Proofs.KeysCode Proofs.KeysTypes
+  Proofs.KeysProofs Proofs.KeysIndexProofs Proofs.KeysCacheProofs Proofs.KeysNamesProofs.
 Import ListNotations.
 Open Scope Z_scope.
 
@@ -341,3 +348,78 @@ Example C07_ex_type_caches :
   cveq (fresh (erase ex_c1)) ex_c2 = true /\ ex_c1 <> fresh (erase ex_c1) /\
   cveq ex_c1 ex_c3 = false /\ cveq ex_c3 ex_c2 = false /\ ckey ex_c1 <> ckey ex_c3.
 Proof. repeat split; try (vm_compute; reflexivity); vm_compute; discriminate. Qed.
+
+(* ------------------------------------------------------------------------------------------ *)
+(* Hidden state and construction route: the cached canonical form of a TypedName (Model/KeysNames.v) *)
+
+(* on every construction route - any nesting of Child, Parent, RelativeTo over names made by the constructor or
+   from a map key, any bytes in the parts - no slice expression faults and the cached form of the result is empty
+   or the form that its visible parts determine *)
+Theorem C07_typedname_cache_in_order_on_every_route : forall e,
+  nx_eval e <> RFault /\ (forall t, nx_eval e = RName t -> tn_ok t).
+Proof. intros e. split; [apply nx_eval_no_fault|apply nx_eval_ok]. Qed.
+Print Assumptions C07_typedname_cache_in_order_on_every_route.
+
+(* hence Equals of two names, however they were made, is decided by their visible parts alone *)
+Theorem C07_typedname_equals_independent_of_route : forall e1 e2 t1 t2,
+  nx_eval e1 = RName t1 -> nx_eval e2 = RName t2 -> tn_equals t1 t2 = visible_eqb t1 t2.
+Proof. exact equals_route_independent. Qed.
+Print Assumptions C07_typedname_equals_independent_of_route.
+
+(* names with the same visible parts are equal, and give the same answer against every third name in both
+   directions, whatever the three routes *)
+Theorem C07_typedname_same_parts_equal : forall e1 e2 t1 t2,
+  nx_eval e1 = RName t1 -> nx_eval e2 = RName t2 ->
+  tn_ns t1 = tn_ns t2 -> tn_auth t1 = tn_auth t2 -> tn_name t1 = tn_name t2 -> tn_equals t1 t2 = true.
+Proof. exact same_parts_equal. Qed.
+Print Assumptions C07_typedname_same_parts_equal.
+
+Theorem C07_typedname_same_parts_same_answers : forall e1 e2 e3 t1 t2 t3,
+  nx_eval e1 = RName t1 -> nx_eval e2 = RName t2 -> nx_eval e3 = RName t3 ->
+  tn_ns t1 = tn_ns t2 -> tn_auth t1 = tn_auth t2 -> tn_name t1 = tn_name t2 ->
+  tn_equals t1 t3 = tn_equals t2 t3 /\ tn_equals t3 t1 = tn_equals t3 t2.
+Proof. exact same_parts_same_answers. Qed.
+Print Assumptions C07_typedname_same_parts_same_answers.
+
+(* the laws, in every state of the cache (also one that is not in order: Equals compares two texts) *)
+Theorem C07_typedname_laws : forall a b c,
+  tn_equals a a = true /\ tn_equals a b = tn_equals b a /\ (tn_equals a b = true -> tn_equals b c = true -> tn_equals a c = true).
+Proof. intros a b c. split; [apply tn_equals_refl|split; [apply tn_equals_sym|apply tn_equals_trans]]. Qed.
+Print Assumptions C07_typedname_laws.
+
+(* C::D reached directly, relative to a parent of two segments (Aa::Bbbb::C::D relative to Aa::Bbbb), as the child
+   of a child and from a map key: equal in both directions, one map key; B::C::D is another name; the hypothesis
+   tn_ok matters: with a cache that is not in order the modelled Equals answers by the cache *)
+Definition ex_ty : str := [116; 121; 112; 101]%N.
+Definition ex_au : str := [104]%N.
+Definition ex_cd : str := [67; 58; 58; 68]%N.
+Definition ex_bcd : str := [66; 58; 58; 67; 58; 58; 68]%N.
+Definition ex_full : str := [65; 97; 58; 58; 66; 98; 98; 98; 58; 58; 67; 58; 58; 68]%N.
+Definition ex_par : str := [65; 97; 58; 58; 66; 98; 98; 98]%N.
+Example C07_ex_typedname :
+  let direct := new_typed_name ex_ty ex_au ex_cd in
+  nx_eval (NRel (NNew ex_ty ex_au ex_full) (NNew ex_ty ex_au ex_par)) = RName direct /\
+  nx_eval (NChild (NChild (NNew ex_ty ex_au ex_full))) = RName direct /\
+  nx_eval (NFromKey (ex_au ++ [47] ++ ex_ty ++ [47] ++ ex_cd)%N) = RName direct /\
+  tn_map_key direct = [104; 47; 116; 121; 112; 101; 47; 99; 58; 58; 100]%N /\
+  tn_equals direct (new_typed_name ex_ty ex_au ex_bcd) = false /\
+  nx_eval (NParent (NNew ex_ty ex_au ex_bcd)) = RName (new_typed_name ex_ty ex_au [66; 58; 58; 67]%N) /\
+  nx_eval (NChild (NNew ex_ty ex_au [68]%N)) = RNil /\
+  nx_eval (NRel (NNew ex_ty ex_au ex_cd) (NNew ex_ty ex_au ex_par)) = RNotRel /\
+  nx_eval (NRel (NNew ex_ty ex_au [67; 58; 58; 32]%N) (NNew ex_ty ex_au [67]%N)) = RErr /\
+  (* the Kelvin sign: its lower case form is one byte, the name is not plain, the form is computed from the parts *)
+  nx_eval (NChild (NNew ex_ty ex_au [226; 132; 170; 58; 58; 66]%N)) = RName (new_typed_name ex_ty ex_au [66]%N) /\
+  tn_map_key (new_typed_name ex_ty ex_au [226; 132; 170]%N) = [104; 47; 116; 121; 112; 101; 47; 107]%N.
+Proof. repeat split; vm_compute; reflexivity. Qed.
+
+Theorem C07_typedname_bad_cache_decides :
+  exists a b, tn_ns a = tn_ns b /\ tn_auth a = tn_auth b /\ tn_name a = tn_name b /\ tn_equals a b = false.
+Proof. exact bad_cache_decides. Qed.
+Print Assumptions C07_typedname_bad_cache_decides.
+
+(* Open finding typeset-key-by-content: TypeSets (outside the universe of the theorems above) are equal when name,
+   authority, pcore URI and the two versions agree, while the hash key also holds the types of the set *)
+Definition C07_statement_typesets : Prop := forall a b, ts_eqb a b = true -> ts_key a = ts_key b.
+Theorem C07_typeset_key_by_content_refuted : exists a b, ts_eqb a b = true /\ ts_key a <> ts_key b.
+Proof. exact typeset_key_by_content_refuted. Qed.
+Print Assumptions C07_typeset_key_by_content_refuted.
